@@ -134,6 +134,12 @@ func (s *Server) servePacket(pc net.PacketConn) error {
 			if pkt.err != nil {
 				return pkt.err
 			}
+			if pkt.addr == nil {
+				// a datagram without a source address (from a unixgram socket
+				// that isn't bound to a path): there is nobody to answer to
+				udpBufPool.Put(pkt.pooledBuf)
+				continue
+			}
 			conn, ok := udpConns[pkt.addr.String()]
 			if !ok {
 				// No existing proxy handler is running for this downstream.
